@@ -462,11 +462,17 @@ func execC06(sc *scenario) (*stats.Case, error) {
 		}
 	}
 	// phase 1: initial sync until the network is quiet (events scheduled "during sync" fire on the way)
+	lastTip, lastTipChange := "", time.Now()
 	quiet := func(max time.Duration) {
 		deadline := time.Now().Add(max)
 		for time.Now().Before(deadline) {
 			pollDuring()
-			idle := true
+			// the service itself must be idle, too: while it works through a large headers message (thousands of
+			// inserts) no message travels, but its tip keeps moving
+			if tip := sc.tipHash(); tip != lastTip {
+				lastTip, lastTipChange = tip, time.Now()
+			}
+			idle := time.Since(lastTipChange) >= 150*time.Millisecond
 			for _, n := range sc.nodes {
 				if time.Since(n.Stat().LastRecv) < 150*time.Millisecond {
 					idle = false
@@ -574,6 +580,7 @@ func genC06(t *rapid.T) *C06Plan {
 	p.HonestLen = rapid.IntRange(5, quickThorough(120, 300)).Draw(t, "len")
 	if rapid.IntRange(0, 30).Draw(t, "long") == 0 && stats.Thorough() {
 		p.HonestLen = rapid.IntRange(2001, 4500).Draw(t, "lenlong")
+		p.WaitMs = 40000 // thousands of inserts per headers message: the bounds scale with the chain
 	}
 	// checkpoint list
 	switch k := rapid.IntRange(0, 3).Draw(t, "cpk"); {
